@@ -1,5 +1,8 @@
 """Deterministic line-level thread scheduler (C20).
 
+Schedule entries: an int t = "thread t runs the next traced line" (consumed one per line event); ['run', t] = "thread t
+runs until it finishes or blocks" (for single-pre-emption schedules: [A]*k + [['run', B], ['run', C]]).
+
 Worker threads run under sys.settrace; every 'line' event inside the traced katdal files is a scheduling
 point at which the baton is handed to the thread the schedule names next.  Locks of the objects under test
 are replaced by instrumented ones whose acquire() deschedules a blocked thread (so a schedule can never
@@ -15,7 +18,7 @@ class Deadlock(Exception):
 
 
 class Sched:
-    def __init__(self, files, schedule, max_steps=4000):
+    def __init__(self, files, schedule, max_steps=4000, max_trace=400):
         self.files = tuple(files)
         self.schedule = list(schedule)
         self.pos = 0
@@ -26,13 +29,29 @@ class Sched:
         self.trace = []
         self.steps = 0
         self.max_steps = max_steps
+        self.max_trace = max_trace
+        self.stall = 8.0
+        self.hung = False
         self.deadlocked = False
 
     # ---- called by worker threads
     def _yield(self, tid, where):
+        # fast path: the schedule says "this thread keeps the baton" (a ['run', tid] entry, or the schedule is used up
+        # and this is the lowest runnable thread): nobody else can be running, so no hand-over and no locking
+        pos, sched = self.pos, self.schedule
+        if pos < len(sched):
+            e = sched[pos]
+            keep = isinstance(e, (list, tuple)) and e[1] == tid
+        else:
+            keep = all(t >= tid or t in self.blocked for t in self.alive)
+        if keep and self.current == tid and tid not in self.blocked:
+            self.steps += 1
+            if len(self.trace) < self.max_trace:
+                self.trace.append((tid, where))
+            return
         with self.cv:
             self.steps += 1
-            if len(self.trace) < 400:
+            if len(self.trace) < self.max_trace:
                 self.trace.append((tid, where))
             self._pick_next()
             while self.current != tid:
@@ -48,10 +67,21 @@ class Sched:
             self.current = None
             self.cv.notify_all()
             return
-        if self.pos < len(self.schedule):
-            want = self.schedule[self.pos] % max(1, len(self.alive | set(self.blocked)))
+        nxt = None
+        while self.pos < len(self.schedule):
+            e = self.schedule[self.pos]
+            if isinstance(e, (list, tuple)):
+                # ['run', t]: thread t keeps the baton until it finishes or blocks (the entry is not consumed before)
+                if e[1] in runnable:
+                    nxt = e[1]
+                    self.pos -= 1
+                    break
+                self.pos += 1
+                continue
+            want = e % max(1, len(self.alive | set(self.blocked)))
             nxt = want if want in runnable else runnable[self.pos % len(runnable)]
-        else:
+            break
+        if nxt is None:
             nxt = runnable[0]
         self.pos += 1
         self.current = nxt
@@ -87,17 +117,46 @@ class Sched:
                     self.alive.discard(tid)
                     self.blocked.pop(tid, None)
                     self._pick_next()
+        # locks that the code under test creates ITSELF while it runs (a traced file calling threading.Lock()/RLock()
+        # from one of the scheduled threads) become instrumented locks too, so that a thread blocking on one hands the
+        # baton on instead of stalling the whole run
+        real_lock, real_rlock = threading.Lock, threading.RLock
+        workers = set()
+
+        def factory(reentrant, real):
+            def make(*a, **k):
+                fr = sys._getframe(1)
+                if threading.current_thread() in workers and fr.f_code.co_filename.endswith(self.files):
+                    return ILock(self, reentrant)
+                return real(*a, **k)
+            return make
         ths = [threading.Thread(target=worker, args=(i, f), daemon=True) for i, f in enumerate(funcs)]
+        workers.update(ths)
         self.alive = set(range(len(funcs)))
-        for t in ths:
-            t.start()
-        with self.cv:
-            self._pick_next()
-        for t in ths:
-            t.join(timeout)
+        threading.Lock, threading.RLock = factory(False, real_lock), factory(True, real_rlock)
+        try:
+            for t in ths:
+                t.start()
+            with self.cv:
+                self._pick_next()
+            # watchdog: a run whose threads make no step for `stall` seconds is hung (a thread blocks on something the
+            # scheduler does not know about while it holds the baton)
+            import time
+            last, seen = time.time(), -1
+            deadline = time.time() + timeout * len(funcs)
+            while any(t.is_alive() for t in ths):
+                time.sleep(0.002)
+                now = time.time()
+                if self.steps != seen:
+                    seen, last = self.steps, now
+                elif now - last > self.stall or now > deadline:
+                    break
+        finally:
+            threading.Lock, threading.RLock = real_lock, real_rlock
         hung = [i for i, t in enumerate(ths) if t.is_alive()]
         for i in hung:
             results[i] = ('exc', 'Hung', 'thread did not finish (deadlock?)')
+        self.hung = bool(hung)
         return results, self.trace
 
 
